@@ -113,6 +113,75 @@ def run_stats(samples, per_process):
             "avgnum": avg.numerator, "avgden": avg.denominator, "count": count, "scope": "process" if per_process else "node"}
 
 
+def pstats_inputs(max_len, max_val):
+    """Two job processes seen in different subsets of the node's samples (jobs start late / end early), each with its own
+    values; optionally the trailing sample JobQueue.wait() takes when no job is left."""
+    import itertools as it
+    for n in range(1, max_len + 1):
+        for pres in it.product((0, 1, 2, 3), repeat=n):            # bit 0: process a present, bit 1: process b present
+            if not any(p & 1 for p in pres) and not any(p & 2 for p in pres):
+                continue
+            vals = [(1 + (k * 2 + 1) % (max_val)) for k in range(n)]
+            for trailing in (False, True):
+                yield [[("a", vals[k]) if p & 1 else None, ("b", max_val - vals[k] + 1) if p & 2 else None] for k, p in enumerate(pres)], trailing
+
+
+def run_pstats(pattern, trailing):
+    """Per-process statistics when the processes are not all present in every sample: one observation per process."""
+    import jade.resource_monitor as rm
+    from jade.models.submitter_params import ResourceMonitorStats
+    cur = {"k": 0}
+    pids = {"a": 11, "b": 12}
+
+    class StubMonitor:
+        def __init__(self, name):
+            self.name = name
+
+        def get_cpu_stats(self):
+            return {"x": 1}
+
+        def get_process_stats(self, pid, include_children=True, recurse_children=False):
+            row = pattern[cur["k"]]
+            for ent in row:
+                if ent is not None and pids[ent[0]] == pid:
+                    return {"x": ent[1]}, []
+            return None, []
+
+        def clear_stale_processes(self, pids_):
+            pass
+
+    orig = rm.ResourceMonitor
+    rm.ResourceMonitor = StubMonitor
+    base = mkbase()
+    try:
+        os.makedirs(os.path.join(base, "stats"))
+        stats = ResourceMonitorStats(cpu=True, disk=False, memory=False, network=False, process=True)
+        agg = rm.ResourceMonitorAggregator("b", stats)
+        for k, row in enumerate(pattern):
+            cur["k"] = k
+            agg.update_resource_stats(ids={ent[0]: pids[ent[0]] for ent in row if ent is not None})
+        if trailing:
+            agg.update_resource_stats(ids={})
+        agg.finalize(base)
+        data = json.load(open(os.path.join(base, "stats", "b_resource_stats.json")))
+    finally:
+        rm.ResourceMonitor = orig
+        shutil.rmtree(base, ignore_errors=True)
+    out = []
+    for name in ("a", "b"):
+        own = [ent[1] for row in pattern for ent in row if ent is not None and ent[0] == name]
+        if not own:
+            continue
+        rec = next((d for d in data if d.get("name") == name), None)
+        if rec is None:
+            out.append({"kind": "stats", "samples": own, "min": -1, "max": -1, "avgnum": -1, "avgden": 1, "count": -1, "scope": "process"})
+            continue
+        avg = Fraction(rec["average"]["x"]).limit_denominator(10000)
+        out.append({"kind": "stats", "samples": own, "min": _clamp(rec["minimum"]["x"]), "max": _clamp(rec["maximum"]["x"]),
+                    "avgnum": avg.numerator, "avgden": avg.denominator, "count": rec["samples"], "scope": "process"})
+    return out
+
+
 def event_inputs(rng, count):
     """Multisets of <= 5 events over 2 names and 3 timestamps spread over <= 3 files."""
     names = ["alpha", "beta"]
@@ -564,6 +633,9 @@ def config_inputs(rng, count):
         # single injected invalidities
         muts = []
         m = copy.deepcopy(base); m["jobs"][rng.randrange(n)]["blk"] = ["99" if auto else "nosuchjob"]; muts.append(m)
+        if not auto:
+            # a blocker that is another job's numeric id, not its name (names are explicit here: no job is called "1")
+            m = copy.deepcopy(base); m["jobs"][n - 1]["blk"] = ["1"]; m["jobs"][n - 1]["intblk"] = rng.random() < 0.5; muts.append(m)
         if n >= 2 and not auto:
             m = copy.deepcopy(base); m["jobs"][1]["name"] = m["jobs"][0]["name"]; m["jobs"][1]["blk"] = []; m["jobs"][0]["blk"] = []
             for j in m["jobs"]:
